@@ -3,6 +3,7 @@
 use serde_json::Value;
 
 mod c04;
+mod c13;
 mod util;
 
 fn main() {
@@ -15,6 +16,7 @@ fn main() {
     let cases = input["cases"].as_array().expect("cases array");
     let observed: Vec<Value> = match args[1].as_str() {
         "c04" => cases.iter().map(c04::run).collect(),
+        "c13" => cases.iter().map(c13::run).collect(),
         other => {
             eprintln!("unknown stream {other}");
             std::process::exit(2);
